@@ -289,6 +289,54 @@ func VerifReapplyNoop() {
 	vAssertSameBuckets(before, vSnapshot(env.model), "C09-stores-unchanged")
 }
 
+// VerifReapplyAfterStep: two transactions. The first is an arbitrary successful transaction
+// (create / change / shrink / re-prioritise / delete one intent) from an arbitrary Inv-state
+// and is confirmed; the second re-submits a live intent verbatim (name, priority, content as
+// they are after the first). The second must be a no-op in every encoding and leave both
+// stores unchanged - whatever the first one did to the stores.
+func VerifReapplyAfterStep() {
+	sc := vPickScenario()
+	env := vNewEnv()
+	pre := vArbitraryState(sc)
+	pre.install(env)
+	req1 := vArbitraryRequest(pre, "req.", verifrt.Choice("req.owner", len(sc.owners)))
+	verifrt.Assume(!(req1.del && req1.orphan)) // an orphan delete leaves device and stores apart by design
+	rsp1, err1 := vStep(env, sc, "t1", []*vRequest{req1}, false)
+	verifrt.Assume(err1 == nil && !vHasErrors(rsp1))
+	verifrt.Assert(env.ds.TransactionConfirm(context.Background(), "t1") == nil, "first-transaction-confirmed")
+	mid := pre.apply([]*vRequest{req1})
+	verifrt.Reach("first-step-done")
+
+	oi := verifrt.Choice("re.owner", len(sc.owners))
+	o := sc.owners[oi]
+	verifrt.Assume(mid.ownerLive(o))
+	req := &vRequest{owner: o, prio: mid.prio[o], pres: map[string]bool{}, val: map[string]vVal{}}
+	for _, l := range sc.leaves {
+		if l.keyOf == "" && mid.pres[l.id][o] {
+			req.pres[l.id] = true
+			req.val[l.id] = mid.val[l.id][o]
+		}
+	}
+	env.tgt.AllEncodings = true
+	sets := env.tgt.Sets
+	before := vSnapshot(env.model)
+	rsp, err := vStep(env, sc, "t2", []*vRequest{req}, false)
+	verifrt.Assert(err == nil && !vHasErrors(rsp), "valid-request-accepted")
+	if err != nil {
+		return
+	}
+	verifrt.Reach("step-done")
+	for i := sets; i < env.tgt.Sets; i++ {
+		verifrt.Assert(len(env.tgt.Updates[i]) == 0, "C09-no-proto-update")
+		verifrt.Assert(len(env.tgt.Deletes[i]) == 0, "C09-no-proto-delete")
+		k := i - sets // the renderings are recorded only while AllEncodings is on
+		verifrt.Assert(env.tgt.JsonEmpty[k], "C09-json-empty")
+		verifrt.Assert(env.tgt.JsonIetfEmpty[k], "C09-json-ietf-empty")
+		verifrt.Assert(env.tgt.XmlEmpty[k], "C09-xml-empty-all-option-combinations")
+	}
+	vAssertSameBuckets(before, vSnapshot(env.model), "C09-stores-unchanged")
+}
+
 // ---- C07
 
 // VerifFaultRetry: one collaborator call fails once; the request is retried.
@@ -436,4 +484,66 @@ func VerifReplaceIntent() {
 	}
 	verifrt.Reach("replace-applied")
 	verifrt.Assert(env.tgt.Sets >= 1, "C03-valid-replace-intent-sent")
+}
+
+// ---- histories from the empty store (no representation invariant assumed)
+
+// VerifHistoryFromEmpty: `steps` successive transactions through the public API, starting
+// from EMPTY stores and an empty device; every transaction is an arbitrary request of one
+// intent (create / change / shrink / re-prioritise / delete / orphan-delete), accepted
+// transactions are confirmed. After every accepted transaction the C02 oracle (intended store
+// = each owner's last accepted intent), the C01 oracle (device = highest-precedence merge) and
+// the running-mirror oracle are asserted against the abstract state folded over the history.
+// Complements VerifPipelineStep: nothing is assumed about reachable stores here, at the price
+// of a bounded history length.
+func VerifHistoryFromEmpty() {
+	sc := vPickScenario()
+	env := vNewEnv()
+	st := vNewState(sc)
+	// priorities of owners that do not exist yet: distinct placeholders outside the request range
+	for i, o := range sc.owners {
+		st.prio[o] = int32(2000 + i)
+	}
+	dev := &vDevice{pres: map[string]bool{}, tv: map[string]*sdcpb.TypedValue{}}
+	steps := verifrt.Param("steps", 2)
+	for k := 0; k < steps; k++ {
+		tag := "s" + string(rune('0'+k)) + "."
+		req := vArbitraryRequest(st, tag, verifrt.Choice(tag+"owner", len(sc.owners)))
+		if req.del {
+			// deleting an intent that does not exist is a no-op request; skip the duplicates
+			verifrt.Assume(st.ownerLive(req.owner))
+		}
+		reqs := []*vRequest{req}
+		id := "t" + string(rune('0'+k))
+		sets := env.tgt.Sets
+		rsp, err := vStep(env, sc, id, reqs, false)
+		verifrt.Assert(err == nil, "valid-request-accepted")
+		if err != nil {
+			return
+		}
+		verifrt.Assert(!vHasErrors(rsp), "valid-request-no-intent-errors")
+		if vHasErrors(rsp) {
+			return
+		}
+		verifrt.Assert(env.ds.TransactionConfirm(context.Background(), id) == nil, "transaction-confirmed")
+		post := st.apply(reqs)
+		post.assertIntended(env, st, reqs, "C02")
+		verifrt.Assert(env.tgt.Sets == sets+1, "C01-one-set-call")
+		var dels []*sdcpb.Path
+		if env.tgt.Sets == sets+1 {
+			dev.applyPayload(sc, env.tgt.Updates[sets], env.tgt.Deletes[sets], "C01")
+			dels = env.tgt.Deletes[sets]
+		}
+		post.assertDevice(st, reqs, dev, "C01")
+		post.assertConfigMirrors(env, dev, dels, "C01-config-mirror")
+		// the running part of the abstract state is what the device now holds
+		for _, l := range sc.leaves {
+			post.rpres[l.id] = dev.pres[l.id]
+			if dev.pres[l.id] {
+				post.rval[l.id] = vVal{u: dev.tv[l.id].GetUintVal(), s: dev.tv[l.id].GetStringVal()}
+			}
+		}
+		st = post
+		verifrt.Reach("step-" + string(rune('0'+k)) + "-done")
+	}
 }
